@@ -40,8 +40,11 @@
 (*       of the added scene whose names are taken get a random suffix.     *)
 (*   subscene(n) drops n's own geometry (only edges leaving successors).   *)
 (*   Adding the same object twice makes two entries (no instancing).       *)
-(* Spec mutants (the Mut.. constants) are self-tests: each must make TLC report *)
-(* the invariant named next to it.                                         *)
+(* Spec mutants (the Mut.. constants) are self-tests: each must make TLC   *)
+(* report the clause named next to it.  Clauses about one operation are    *)
+(* action properties [][..]_vars (checked on every transition); the state  *)
+(* is <<registry, hash memo, graph cache, scene cache>>, `last` holds what *)
+(* the operation returned and is not part of the VIEW.                     *)
 (***************************************************************************)
 EXTENDS Integers, Sequences, FiniteSets, TLC, Json, SequencesExt
 
@@ -69,7 +72,7 @@ VARIABLES st,    \* the registry: [geo, nodes, par, off, ng, rnd]
           hm,    \* EnforcedForest._hash : [d |-> dirty?, c |-> content the memo was computed from]
           gc,    \* SceneGraph._cache    : id + memoised nodes_geometry / geometry_nodes
           sc,    \* Scene._cache         : id + memoised duplicate_nodes / bounds-is-None
-          last,  \* what the last operation returned / read (+ the state before it)
+          last,  \* what the last operation returned / read
           hist   \* rendered history (emission only)
 vars == <<st, hm, gc, sc, last, hist>>
 View == <<st, hm, gc, sc, Len(hist)>>
